@@ -209,6 +209,66 @@ def check(prog, res, tier):
                              func_where(fi), '(record.decode(in_encoding) ...), (record.encode(out_encoding) ...), write_many', chk_p,
                              rule=f'C19.d.{fi.short}', unknown_ok=lambda u_: True))
 
+    # ---- C19.a paramconv command: sourceformat -> codec pair, blocking option
+    if prog.has_func('cli.paramconv.cli_run'):
+        pfi = prog.func('cli.paramconv.cli_run')
+
+        def cap(it, fi, args, kwargs, node, self_obj):
+            names = [a.arg for a in fi.node.args.args]
+            b = dict(zip(names, args))
+            b.update({k: v for k, v in kwargs.items() if k != '**'})
+            it.user['conv_call'] = b
+            return ConstV(None)
+
+        def noop(it, fi, args, kwargs, node, self_obj):
+            return ConstV(None)
+
+        def entry_pc(it):
+            inp = it.sym_str('input', lo=1)
+            sf = SymV('sourceformat', 'str', choices=('ebcdic', 'ascii'))
+            nb = SymV('no1014blocking', 'bool')
+            it.user.update(inp=inp, sf=sf, nb=nb)
+            return it.call_function(pfi, [], {'input': inp, 'sourceformat': sf, 'no1014blocking': nb, 'loglevel': IntV(30)})
+        summ_pc = {'cli.paramconv.mci_ipm_param_encode': cap, 'cli.print_banner': noop}
+        runs_pc = Runs(prog, entry_pc, summaries=summ_pc, res=res)
+
+        def chk_pc(p, mode):
+            if p.outcome != 'return':
+                return [definite(f'paramconv raises {p.value!r}')] if p.outcome == 'raise' else []
+            it = p.interp
+            b = it.user.get('conv_call')
+            if b is None:
+                return [definite('paramconv does not call the parameter file converter')]
+            src = it.binds.get('sourceformat')
+            want = ('cp500', 'latin1') if src == 'ebcdic' else ('latin1', 'cp500')
+            norm = lambda s_: (s_ or '').replace('_', '').replace('-', '').lower()
+            ge, we = it.py_key(it.resolve(b.get('in_encoding'))), it.py_key(it.resolve(b.get('out_encoding')))
+            fails = []
+            if (norm(ge), norm(we)) != want:
+                fails.append(definite(f'sourceformat {src!r} converts {ge!r} -> {we!r}, expected {want[0]} -> {want[1]} (the two directions must '
+                                      f'use the same pair of code pages to be reversible)'))
+            nb = it.binds.get(('truth', 'no1014blocking'))
+            got = it.resolve(b.get('blocked', ConstV(None)))
+            if not (isinstance(got, ConstV) and got.value is (not nb)):
+                fails.append(definite(f'no1014blocking={nb} gives blocked={got!r}'))
+            opens = {e.data['file']: e for e in p.evs('open')}
+            fin, fout = b.get('in_file'), b.get('out_file')
+            for f_, m_, what in ((fin, 'rb', 'input'), (fout, 'wb', 'output')):
+                e = opens.get(f_)
+                if e is None:
+                    fails.append(definite(f'the {what} file is not opened by the command'))
+                    continue
+                a = e.data['args']
+                md = it.py_key(a[1]) if len(a) > 1 else it.py_key(e.data['kwargs'].get('mode')) if 'mode' in e.data['kwargs'] else 'r'
+                if md != m_:
+                    fails.append(definite(f'the {what} file is opened with mode {md!r}'))
+            if fin in opens and opens[fin].data['args'] and opens[fin].data['args'][0] is not it.user['inp']:
+                fails.append(definite('the converter does not read the input file named on the command line'))
+            return fails
+        res.add(runs_pc.judge('C19.a', 'paramconv: ebcdic -> (cp500 to latin1), ascii -> (latin1 to cp500); blocked = not no1014blocking; files opened binary',
+                              func_where(pfi), "in_encoding = 'cp500'; out_encoding = 'latin1' / reverse", chk_pc, rule='C19.a.paramconv',
+                              unknown_ok=lambda u_: True))
+
     # ---- C19.b get_config
     if prog.has_func('cli.mci_ipm_encode.get_config'):
         gfi = prog.func('cli.mci_ipm_encode.get_config')
